@@ -99,6 +99,7 @@ func exprsStream(r *Run) {
 	maps := []*V{
 		VStrMap(), VStrMap(SKV("b", VStr("vb"))), VStrMap(SKV("b", VStr("vb")), SKV("c", i(3))),
 		VStrMap(SKV("size", VStr("shadow")), SKV("b", VStr("vb"))), VStrMap(SKV("b", VNil())),
+		VStrMap(SKV("size", VNil()), SKV("b", VStr("vb"))), VStrMap(SKV("size", VNil())),
 		VMap(TStr, TStr, SKV("b", VStr("vb"))),
 	}
 	for _, m := range maps {
